@@ -191,3 +191,7 @@ mod tests {
         assert_eq!(res.as_ref(), &expected);
     }
 }
+
+#[cfg(kani)]
+#[path = "/verif/kani/arrow-select/window.rs"]
+mod verif_kani;
